@@ -751,3 +751,149 @@ theorem refine_eq (env : DepEnv) (hs : env.SetLawful) {n : Nat} {m : Graph} {c :
   rw [h1]
   simp only [Py.ok_bind, h2, List.length_range, List.nil_append]
   rfl
+
+/-- the result does not depend on the fuel once there is enough of it -/
+theorem refineSpec_fuel (n : Nat) : ∀ (f f' : Nat) (m : Graph) (c : Nat), Inv n m c →
+    f + c ≥ n + 1 → f' + c ≥ n + 1 → refineSpec f m = refineSpec f' m := by
+  intro f
+  induction f with
+  | zero =>
+    intro f' m c hinv h1 _
+    obtain ⟨_, h3, h4, _⟩ := hinv.step
+    omega
+  | succ f ih =>
+    intro f' m c hinv h1 h2
+    obtain ⟨hinv', h3, h4, _⟩ := hinv.step
+    cases f' with
+    | zero => omega
+    | succ f' =>
+      simp only [refineSpec]
+      by_cases hstop : numClasses (refineStep m) = numClasses m
+      · simp [hstop]
+      · simp only [hstop, if_false]
+        rw [hinv.dense.numClasses] at hstop
+        exact ih f' _ _ hinv' (by omega) (by omega)
+
+/-- `refineSpec` iterates `refineStep` up to and including the first round that does not increase
+the number of classes -/
+theorem refineSpec_iterate (n : Nat) : ∀ (f : Nat) (m : Graph) (c : Nat), Inv n m c → f + c ≥ n + 1 →
+    ∃ j, refineSpec f m = refineStep^[j + 1] m ∧ (∃ c', Inv n (refineStep^[j] m) c') ∧
+      numClasses (refineStep^[j + 1] m) = numClasses (refineStep^[j] m) ∧
+      ∀ i < j, numClasses (refineStep^[i + 1] m) ≠ numClasses (refineStep^[i] m) := by
+  intro f
+  induction f with
+  | zero =>
+    intro m c hinv h1
+    obtain ⟨_, h3, h4, _⟩ := hinv.step
+    omega
+  | succ f ih =>
+    intro m c hinv h1
+    obtain ⟨hinv', h3, h4, _⟩ := hinv.step
+    simp only [refineSpec]
+    by_cases hstop : numClasses (refineStep m) = numClasses m
+    · refine ⟨0, by simp [hstop], ⟨c, by simpa using hinv⟩, by simpa using hstop, by simp⟩
+    · simp only [hstop, if_false]
+      have hstop' := hstop
+      rw [hinv.dense.numClasses] at hstop'
+      obtain ⟨j, e1, ⟨c', e2⟩, e3, e4⟩ := ih (refineStep m) _ hinv' (by omega)
+      refine ⟨j + 1, ?_, ⟨c', ?_⟩, ?_, ?_⟩
+      · rw [e1]; simp only [Function.iterate_succ_apply]
+      · simpa only [Function.iterate_succ_apply] using e2
+      · simpa only [Function.iterate_succ_apply] using e3
+      · intro i hi
+        cases i with
+        | zero => simpa using hstop
+        | succ i =>
+          have := e4 i (by omega)
+          simpa only [Function.iterate_succ_apply] using this
+
+/-- what is preserved by any number of refinement rounds: well-formedness, the atoms, all attributes
+other than "partition", the bonds; and the classes only ever get finer -/
+theorem iterate_frame {n : Nat} {m : Graph} {c : Nat} (hinv : Inv n m c) (j : Nat) :
+    (∃ c', Inv n (refineStep^[j] m) c') ∧ (refineStep^[j] m).nodeList = m.nodeList ∧
+    (∀ a k', k' ≠ "partition" → (refineStep^[j] m).attr a k' = m.attr a k') ∧
+    (∀ a, ((refineStep^[j] m).nbrs a).Perm (m.nbrs a)) ∧
+    (∀ a ∈ m.nodeList, ∀ b ∈ m.nodeList,
+      (refineStep^[j] m).attr a "partition" = (refineStep^[j] m).attr b "partition" →
+      m.attr a "partition" = m.attr b "partition") := by
+  induction j with
+  | zero => exact ⟨⟨c, hinv⟩, rfl, fun _ _ _ => rfl, fun _ => List.Perm.refl _, fun _ _ _ _ h => h⟩
+  | succ j ih =>
+    obtain ⟨⟨c', hi⟩, h1, h2, h3, h4⟩ := ih
+    rw [Function.iterate_succ_apply']
+    have s := partGraph_spec hi.wf "partition"
+    refine ⟨⟨_, hi.step.1⟩, s.nodes.trans h1, ?_, ?_, ?_⟩
+    · intro a k' hk'; exact (s.frame a k' hk').trans (h2 a k' hk')
+    · intro a; exact (s.nbrs a).trans (h3 a)
+    · intro a ha b hb hab
+      apply h4 a ha b hb
+      rw [← h1] at ha hb
+      exact (partSpec_refines s hi.dense.carries ha hb hab).1
+
+/-- the graph yielded by `refine_partitions m` -/
+def refineResult (m : Graph) : Graph := refineSpec (m.nodeList.length + 1) m
+
+/-- what the caller may rely on about the refined graph `r` made from `m` -/
+structure RefineSpec (m r : Graph) : Prop where
+  wf : r.WF
+  nodes : r.nodeList = m.nodeList
+  frame : ∀ a k', k' ≠ "partition" → r.attr a k' = m.attr a k'
+  nbrs : ∀ a, (r.nbrs a).Perm (m.nbrs a)
+  /-- the classes are again exactly `0..c'-1` -/
+  dense : Dense r (numClasses r)
+  /-- the classes refine the classes of the input -/
+  refines : ∀ a ∈ m.nodeList, ∀ b ∈ m.nodeList, r.attr a "partition" = r.attr b "partition" →
+    m.attr a "partition" = m.attr b "partition"
+  /-- atoms of one class see the same multiset of classes among their neighbours -/
+  equitable : Equitable r
+  /-- one more refinement round would change nothing -/
+  fixpoint : ∀ r', PartSpec r "partition" r' → ∀ a ∈ r.nodeList, r'.attr a "partition" = r.attr a "partition"
+  /-- `r` is reached by iterating the refinement round, stopping at the first round that does not
+  increase the number of classes -/
+  iter : ∃ j, r = refineStep^[j + 1] m ∧ numClasses (refineStep^[j + 1] m) = numClasses (refineStep^[j] m) ∧
+    ∀ i < j, numClasses (refineStep^[i + 1] m) ≠ numClasses (refineStep^[i] m)
+
+theorem refineSpec_spec {n : Nat} {m : Graph} {c : Nat} (hinv : Inv n m c) (f : Nat) (hf : f + c ≥ n + 1) :
+    RefineSpec m (refineSpec f m) := by
+  obtain ⟨j, e1, ⟨c', e2⟩, e3, e4⟩ := refineSpec_iterate n f m c hinv hf
+  obtain ⟨_, f1, f2, f3, f4⟩ := iterate_frame hinv (j + 1)
+  obtain ⟨_, g1, _, _, _⟩ := iterate_frame hinv j
+  rw [← e1] at f1 f2 f3 f4
+  have s := partGraph_spec e2.wf "partition"
+  have hst := e2.step
+  have hcnt : (seqs (refineStep^[j] m) "partition").dedup.length = c' := by
+    rw [← hst.2.2.2, ← e2.dense.numClasses]
+    rw [Function.iterate_succ_apply'] at e3
+    exact e3
+  obtain ⟨_, r2, r3⟩ := round_stop e2.wf e2.dense s hcnt
+  have er : refineSpec f m = refineStep (refineStep^[j] m) := by
+    rw [e1, Function.iterate_succ_apply']
+  refine ⟨?_, f1, f2, f3, ?_, f4, ?_, ?_, ⟨j, e1, e3, e4⟩⟩
+  · rw [er]; exact hst.1.wf
+  · rw [er]; exact hst.1.dense
+  · rw [er]; exact r2
+  · rw [er]; exact r3
+
+/-- Contract of `refine_partitions` (total correctness): for a well-formed, non-empty molecule whose
+"partition" values are exactly `0..c-1` (what `partition_molecule_by_attribute` produces), and any
+fuel ≥ number of atoms + 1, exactly one graph is yielded; it is the same for every such fuel; and
+it satisfies `RefineSpec`. -/
+theorem refine_ok (env : DepEnv) (hs : env.SetLawful) {m : Graph} {c : Nat} (hw : m.WF) (hd : Dense m c)
+    (hc : 1 ≤ c) (fuel : Nat) (hf : fuel ≥ m.nodeList.length + 1) :
+    Tucan.canonicalization.refine_partitions env fuel m = .ok [refineResult m] ∧
+      RefineSpec m (refineResult m) := by
+  have hinv : Inv m.nodeList.length m c := ⟨hw, hd, rfl, hc⟩
+  refine ⟨?_, refineSpec_spec hinv _ (by omega)⟩
+  rw [refine_eq env hs hinv fuel hf]
+  unfold refineResult
+  rw [refineSpec_fuel _ fuel (m.nodeList.length + 1) m c hinv (by omega) (by omega)]
+
+/-- C13 (stability under refinement): in the graph yielded by `refine_partitions`, atoms of one
+class see the same multiset of classes among their neighbours. -/
+theorem refine_equitable (env : DepEnv) (hs : env.SetLawful) {m : Graph} {c : Nat} (hw : m.WF)
+    (hd : Dense m c) (hc : 1 ≤ c) (fuel : Nat) (hf : fuel ≥ m.nodeList.length + 1) :
+    ∃ r, Tucan.canonicalization.refine_partitions env fuel m = .ok [r] ∧
+      ∀ a ∈ r.nodeList, ∀ b ∈ r.nodeList, r.attr a "partition" = r.attr b "partition" →
+        sortedRev ((r.nbrs a).map (attrV r "partition")) = sortedRev ((r.nbrs b).map (attrV r "partition")) := by
+  obtain ⟨h1, h2⟩ := refine_ok env hs hw hd hc fuel hf
+  exact ⟨_, h1, h2.equitable⟩
